@@ -78,6 +78,12 @@ type MdnsManager struct {
 
 	mux,
 	muxAnnounced sync.Mutex
+
+	// the reports are sent asynchronously, make sure an older list of entries
+	// is never reported after a newer one
+	muxReport       sync.Mutex
+	reportCounter   uint64
+	reportDelivered uint64
 }
 
 func shortenString(s string, maxLen int) string {
@@ -557,8 +563,30 @@ func (m *MdnsManager) processMdnsEntry(elements map[string]string, name, host st
 		return
 	}
 
+	m.reportMdnsEntries(true)
+}
+
+// report a copy of the current entries asynchronously
+// a report which was overtaken by a newer one is dropped
+func (m *MdnsManager) reportMdnsEntries(newEntries bool) {
+	m.mux.Lock()
+	m.reportCounter++
+	counter := m.reportCounter
+	m.mux.Unlock()
+
 	entries := m.copyMdnsEntries()
-	go m.report.ReportMdnsEntries(entries, true)
+
+	go func() {
+		m.muxReport.Lock()
+		defer m.muxReport.Unlock()
+
+		if counter < m.reportDelivered {
+			return
+		}
+		m.reportDelivered = counter
+
+		m.report.ReportMdnsEntries(entries, newEntries)
+	}()
 }
 
 func (m *MdnsManager) RequestMdnsEntries() {
@@ -566,6 +594,5 @@ func (m *MdnsManager) RequestMdnsEntries() {
 		return
 	}
 
-	entries := m.copyMdnsEntries()
-	go m.report.ReportMdnsEntries(entries, false)
+	m.reportMdnsEntries(false)
 }
